@@ -401,8 +401,14 @@ func buildIllegal(kind string, sub int, legal bool) []*sg.Mod {
 	case "current-uses-deprecated-grouping":
 		m.Groupings = []*sg.Grouping{{Name: "g", Status: "deprecated", Kids: []*sg.Node{leaf("x")}}}
 		u := &sg.Node{Kind: "uses", Name: ref("g")}
+		// the uses stands 0-2 levels below the node that carries the status (inherited through nodes that have none)
+		carrier := u
+		for d := v(3); d > 0; d-- {
+			u = &sg.Node{Kind: "container", Name: fmt.Sprintf("lvl%d", d), Kids: []*sg.Node{u}}
+			carrier = u
+		}
 		if legal {
-			u.Status = "deprecated"
+			carrier.Status = "deprecated"
 		}
 		if v(2) == 1 {
 			// an earlier, legal use of the same grouping: every reference is checked, not the first only
